@@ -22,7 +22,7 @@ MECH = {
     "C15": [("RLMech", ["SliceOK"])],
     "C16": [("RLMech", ["MergeOK"])],
 }
-APA = {"C02": [("ColSliceApa", "Agree")], "C15": [("RLStepApa", "Agree")]}
+APA = {"C02": [("ColSliceApa", "Agree")], "C15": [("RLStepApa", "Agree")], "C04": [("HiBitsApa", "Iso")]}
 
 
 def mech_stages(res, prop):
